@@ -83,13 +83,18 @@ class BasicStructure(ComplexDop):
             actual_len = encode_state.cursor_byte_position - orig_pos
 
             if actual_len < self.byte_size:
-                # Padding bytes are needed. We add an empty object at
-                # the position directly after the structure and let
-                # EncodeState add the padding as needed.
-                encode_state.cursor_byte_position = encode_state.origin_byte_position + self.byte_size
-                # Padding bytes needed. these count as "used".
-                encode_state.coded_message += b"\x00" * (self.byte_size - actual_len)
-                encode_state.used_mask += b"\xff" * (self.byte_size - actual_len)
+                # Padding bytes are needed: the structure occupies
+                # the bytes from its own first byte (not the origin
+                # of the enclosing object) up to its byte size.
+                end_pos = orig_pos + self.byte_size
+                if len(encode_state.coded_message) < end_pos:
+                    n = end_pos - len(encode_state.coded_message)
+                    encode_state.coded_message += b"\x00" * n
+                    encode_state.used_mask += b"\x00" * n
+                # Padding bytes count as "used".
+                encode_state.used_mask[orig_pos + actual_len:end_pos] = b"\xff" * (
+                    self.byte_size - actual_len)
+                encode_state.cursor_byte_position = end_pos
 
     @override
     def decode_from_pdu(self, decode_state: DecodeState) -> ParameterValue:
